@@ -51,7 +51,12 @@ func (v *Point) SetExtendedCoordinates(X, Y, Z, T *field.Element) (*Point, error
 }
 
 func isOnCurve(X, Y, Z, T *field.Element) bool {
-	var lhs, rhs field.Element
+	var zero, lhs, rhs field.Element
+	// Z = 0 does not represent any point, but (0:0:0:0) would satisfy both
+	// equations below.
+	if Z.Equal(&zero) == 1 {
+		return false
+	}
 	XX := new(field.Element).Square(X)
 	YY := new(field.Element).Square(Y)
 	ZZ := new(field.Element).Square(Z)
